@@ -279,3 +279,53 @@ func VH_C02_errorItem() {
 		vAssert(fb == 1 && fbGot == lastErr, "fallback-exactly-once")
 	}
 }
+
+// the budget of a batch item that has been started is its own, in stop mode too: item 0 fails (for
+// good) while item 1, picked up by the other worker, is between two attempts — item 1 still gets
+// min(k, N) attempts, and its fallback exactly when all of them failed (the caller's context is
+// alive throughout)
+func VH_C02_stopSiblings() {
+	N := 2 + vChoice("N", vParam("N", 2)-1)
+	vUnwind(N + 6)
+	ctx, cancel := context.WithCancel(context.Background())
+	defer cancel()
+	calls, okAt, fb := [2]int{}, [2]int{}, [2]int{}
+	b := NewBatchNode().WithMaxRetries(N).WithBatchConcurrency(2).WithBatchErrorHandling(false).
+		WithPrepFunc(func(ctx context.Context, s *SharedStore) ([]Result, error) {
+			return []Result{NewResult(100), NewResult(101)}, nil
+		}).
+		WithExecFunc(func(ctx context.Context, item Result) (Result, error) {
+			k := bIndex(item)
+			var err error
+			vMonC(1, func() {
+				calls[k]++
+				if k == 0 || (okAt[1] == 0 && vNondet[bool]("fail")) {
+					err = vNewErr()
+				} else if okAt[1] == 0 {
+					okAt[1] = calls[1]
+				}
+			})
+			return item, err
+		})
+	WithExecFallbackFunc(func(p any, err error) (any, error) {
+		r, _ := p.(Result)
+		k := bIndex(r)
+		vMonC(1, func() { fb[k]++ })
+		return nil, err
+	}).apply(b.CustomNode)
+	Run(ctx, b, NewSharedStore())
+	for k := 0; k < 2; k++ {
+		if calls[k] == 0 {
+			continue // never started (stop mode): C09's business
+		}
+		if okAt[k] > 0 {
+			vAssert(calls[k] == okAt[k] && fb[k] == 0, "stop-at-first-success")
+		} else {
+			vAssert(calls[k] == N, "exactly-N-attempts")
+			vAssert(fb[k] == 1, "fallback-exactly-once")
+		}
+	}
+	if calls[1] > 1 {
+		vCover("sibling-retried-in-stop-mode")
+	}
+}
